@@ -3,6 +3,7 @@ import GModel.Ops
 import GModel.Pipeline
 import GModel.RdfNames
 import GModel.Fft
+import GModel.CacheName
 /-! line-protocol operation: the whole per-atom chain (C07) -/
 namespace G.Ops10
 open G G.Ops G.Pipeline
@@ -30,5 +31,12 @@ def opCAcorr : Rd String := do
   let xs ← rdList rdRat
   pure ("ok " ++ showRats ((List.range xs.length).map (Fft.cyclicAcorr xs pad)))
 
-def table : List (String × Rd String) := [("pipe", opPipe), ("rdfnames", opRdfNames), ("cacorr", opCAcorr)]
+/-- `cachename k file-components… m template-components… hash` → the default cache file name, components joined by dots -/
+def opCacheName : Rd String := do
+  let file ← rdList tok
+  let tmpl ← rdList tok
+  let h ← tok
+  pure ("ok " ++ ".".intercalate (CacheName.cacheName file tmpl h))
+
+def table : List (String × Rd String) := [("pipe", opPipe), ("rdfnames", opRdfNames), ("cacorr", opCAcorr), ("cachename", opCacheName)]
 end G.Ops10
